@@ -796,7 +796,7 @@ theorem readDnssec_sat (t : Nat) (hd : isDnssec t = true)
       Sat.bind Sat.remaining.liftK fun left _ =>
       Sat.ite (c := 0) (m := 0) (hashLen > left) (fun _ => Sat.fail.liftK) (fun _ =>
         (Sat.bind (Sat.readSlice hashLen).liftK fun hash _ => Sat.bind readTypeSet_sat fun ts _ =>
-          (Sat.pure (P := RP t) (RData.nsec3 x.1 x.2.1 x.2.2 hash ts) (RP_nil rfl trivial)).liftK).weaken
+          (Sat.pure (P := RP t) (RData.nsec3 x.1 x.2.1 x.2.2 hash (b32Label hash) ts) (RP_nil rfl trivial)).liftK).weaken
           (Nat.le_refl _) (by omega) (by omega) (fun _ h => h))
     sat_done h
   refine Sat.ite _ (fun _ => ?_) (fun h51 => ?_)
@@ -1203,6 +1203,32 @@ theorem readMessage_sat (opq : Nat → Rd Bytes) (hq : OpqOK opq) :
       (allBounded_append (allBounded_append (allBounded_append (allBounded_append hqs han.1) hns.1) har.1) har.2)).liftK
   sat_done h
 
+/-- `Queries::read`, first half: the raw question is at least 5 octets long -/
+theorem readQueryRaw_sat :
+    Sat readQueryRaw 0 16512 5 (fun x => Bounded x.1.name ∧ 5 ≤ x.2.length) := by
+  intro buf st hst
+  unfold readQueryRaw
+  simp only [bind_eq, pure_eq]
+  rw [satAt_bind_index]
+  refine SatAt.weaken (SatAt.bind (c1 := 16512) (c2 := 0) (m1 := 5) (m2 := 0) (readQuery_sat buf st hst) ?_)
+    (Nat.le_refl _) (by omega) (by omega) (fun _ h => h)
+  intro q st1 _ hq h1 h2
+  unfold SatAt Rd.bind Rd.sliceFrom
+  have hn1 : ¬ st.pos > st1.pos := by omega
+  have hn2 : ¬ st1.pos > buf.length := by omega
+  simp only [hn1, hn2, if_false, Rd.pure]
+  refine ⟨by omega, h2, by omega, hq, ?_⟩
+  simp only [List.length_take, List.length_drop]
+  omega
+
+/-- `Queries::read`, second half: `original[len - 4..]` is in range -/
+theorem echoBytes_sat (q : Query) (raw : Bytes) (h : 5 ≤ raw.length) :
+    Sat (echoBytes q raw) 0 0 0 (fun _ => True) := by
+  unfold echoBytes
+  simp only [pure_eq]
+  exact Sat.ite _ (fun _ => Sat.ite (r1 := Rd.panic "Queries::read:original[len-4..]") _
+    (fun hlt => absurd hlt (by omega)) (fun _ => Sat.pure _ trivial)) (fun _ => Sat.pure _ trivial)
+
 /-- `Request::from_bytes` (`Header::read`, `Queries::read`, `MessageRequest::read_with_queries`) -/
 theorem readRequest_sat (opq : Nat → Rd Bytes) (hq : OpqOK opq) :
     Sat (readRequest opq) 49538 165123 12 ReqP := by
@@ -1211,20 +1237,19 @@ theorem readRequest_sat (opq : Nat → Rd Bytes) (hq : OpqOK opq) :
   have h := Sat.bind (K := 49538) (Q := ReqP) readHeader_sat.liftK fun hd _ =>
     Sat.ite (c := 165123) (m := 0) (hd.2.qd ≠ 1)
       (fun _ => Sat.fail.liftK.weaken (Nat.le_refl _) (by omega) (by omega) (fun _ h => h))
-      (fun _ => (Sat.bind Sat.index.liftK fun start _ =>
-        Sat.bind (readQuery_sat.liftK) fun q hqn =>
-        Sat.bind (Sat.sliceFrom start).liftK fun original _ =>
+      (fun _ => (Sat.bind readQueryRaw_sat.liftK fun x hx =>
+        Sat.bind (echoBytes_sat x.1 x.2 hx.2).liftK fun original _ =>
         Sat.bind (readRecords_sat opq hq false hd.1.op hd.2.an _ AccP_nil) fun an han =>
         Sat.bind (readRecords_sat opq hq false hd.1.op hd.2.ns _ AccP_nil) fun ns hns =>
         Sat.bind (readRecords_sat opq hq true hd.1.op hd.2.ar _ AccP_nil) fun ar har =>
         (Sat.pure (P := ReqP)
-          { md := mergeRcode hd.1 ar.2.1, query := q, original := original, answers := an.1,
+          { md := mergeRcode hd.1 ar.2.1, query := x.1, original := original, answers := an.1,
             authorities := ns.1, additionals := ar.1, signature := ar.2.2, edns := ar.2.1 }
           (by
             intro n hn
             simp only [requestNames, List.mem_cons] at hn
             rcases hn with rfl | hn
-            · exact hqn
+            · exact hx.1
             · exact allBounded_append (allBounded_append (allBounded_append han.1 hns.1) har.1) har.2 n hn)).liftK).weaken
         (Nat.le_refl _) (by omega) (by omega) (fun _ h => h))
   sat_done h
